@@ -250,6 +250,14 @@ def assignment_world(idx):
                     r["clip_right" if strand == "+" else "clip_left"] = ("A" if strand == "+" else "T") * 30
                 reads.append(r)
                 k += 1
+    # mono-exonic reads next to the gene boundaries: adjacent to the first / last base without overlapping it, and overlapping exactly
+    # one base of the gene (whether the gene is "seen" for the read must not depend on the side)
+    g1 = [ex for tid, (chrom, strand, ex, g) in iso.items() if g == "G1"]
+    gs, ge = min(e[0][0] for e in g1), max(e[-1][1] for e in g1)
+    for nm_, bl in (("adjL", [gs - 300, gs - 1]), ("adjR", [ge + 1, ge + 300]), ("touchL", [gs - 300, gs]), ("touchR", [ge, ge + 300])):
+        if bl[0] >= 1:
+            reads.append({"name": "%s_%d" % (nm_, k), "chr": "chr1", "blocks": [bl], "reverse": False})
+            k += 1
     reads.append({"name": "edge", "chr": "chr2", "blocks": [[1, 300], [701, 900]], "reverse": False})
     w = dict(w, reads=reads)
     syn.plant_for_transcripts(w)
@@ -271,6 +279,25 @@ def case(args):
     from vlib import syn, run, mix
     if kind == "assign":
         w, tag = assignment_world(param)
+        extra = ["--no_model_construction"]
+        models = False
+    elif kind == "boundary":
+        # isolated mono-exonic reads next to gene boundaries (each read is a read cluster of its own): adjacent to the first / last base of
+        # a gene without overlapping it (gene GA), overlapping exactly one base (gene GB); param = strand of the genes
+        from vlib import worlds as W
+        w = W.base_world(1, 12000)
+        ea = [[2001, 2300], [2601, 2900], [3201, 3500]]
+        eb = [[7001, 7300], [7601, 7900], [8201, 8500]]
+        w["genes"].append({"id": "GA", "chr": "chr1", "strand": param, "transcripts": [{"id": "TA", "exons": ea}]})
+        w["genes"].append({"id": "GB", "chr": "chr1", "strand": param, "transcripts": [{"id": "TB", "exons": eb}]})
+        syn.plant_for_transcripts(w)
+        w["reads"] = [{"name": "adjL", "chr": "chr1", "blocks": [[1701, 2000]], "reverse": False},
+                      {"name": "adjR", "chr": "chr1", "blocks": [[3501, 3800]], "reverse": False},
+                      {"name": "touchL", "chr": "chr1", "blocks": [[6702, 7001]], "reverse": False},
+                      {"name": "touchR", "chr": "chr1", "blocks": [[8500, 8799]], "reverse": False},
+                      {"name": "gapL", "chr": "chr1", "blocks": [[4700, 4999]], "reverse": True},
+                      {"name": "edge", "chr": "chr1", "blocks": [[1, 300]], "reverse": False}]
+        tag = "boundary" + ("p" if param == "+" else "m")
         extra = ["--no_model_construction"]
         models = False
     elif kind == "c13":
@@ -355,6 +382,9 @@ def run(ctx):
     for sc in scen:
         for tr in list(shifts) + ["reflect"]:
             jobs.append(("mix", sc, tr, ctx.scratch))
+    for strand in "+-":
+        for tr in (["reflect", 257] if quick else list(shifts) + ["reflect"]):
+            jobs.append(("boundary", strand, tr, ctx.scratch))
     from props import c13
     ids = sorted(c13.ISO_MENU)
     c13_variants = [0, 1, 2] + [(isos, sec) for n in (1, 2) for isos in itertools.combinations(ids, n) for sec in c13.SECOND]
